@@ -16,7 +16,7 @@ Requests:
                                       each a `;` separated list of true `field.id` keys (`-` = none)
 * `semq <o|a> <defaults> Q <docs>`  → per document `1`/`0` of `semQ`, or `undoc`
 * `safe <o|a> Q`                    → `1` iff `rewrite_ast` is meaning-preserving on `build q`
-                                      by the criterion of `C16_rewrite_preserves_sem_partial`
+                                      by the side condition `safeWith` (see the comment before `C16_rewrite_preserves_sem_counterexample`)
 -/
 namespace TantivyModel.Driver.C16
 open TantivyModel TantivyModel.Proto TantivyModel.Grammar
